@@ -41,9 +41,19 @@ def holds(spec, state, now):
     if kind == 'flag':
         return bool(state['flags'][spec['f']]) != bool(spec.get('neg'))
     if kind == 'tracked':
-        return CMP[spec['cmp']](state['tracked'][spec['i']], spec['v'])
+        right = spec['v']
+        if isinstance(right, dict):
+            right = state['tracked'][right['i']]
+        return CMP[spec['cmp']](state['tracked'][spec['i']], right)
     if kind == 'done':
         return bool(state['done'].get(spec['task'], False)) != bool(spec.get('neg'))
+    if kind == 'levels':
+        # resource levels compare component-wise (a partial order): every field must satisfy
+        levels = state['levels'][spec['r']]
+        test = CMP[spec['cmp']]
+        if spec['cmp'] == 'ne':
+            return not all(levels[key] == spec['v'].get(key, 0) for key in levels)
+        return all(test(levels[key], spec['v'].get(key, 0)) for key in levels)
     if kind == 'and':
         return all(holds(sub, state, now) for sub in spec['a'])
     if kind == 'or':
